@@ -375,35 +375,43 @@ func c10R4(c *Ctx) {
 
 func c10R5(c *Ctx) {
 	f := c.fn("trzszError.isStopAndDelete")
+	isGlobMsg := func(v ssa.Value) bool {
+		base, fld, ok := fieldOf(v)
+		if !ok || fld != "message" {
+			return false
+		}
+		u, ok := base.(*ssa.UnOp)
+		if !ok {
+			return false
+		}
+		g, ok := u.X.(*ssa.Global)
+		return ok && g.Name() == "errStoppedAndDeleted"
+	}
+	isOwnMsg := func(v ssa.Value) bool { return isFieldLoad("message")(v) && !isGlobMsg(v) }
 	n := 0
 	eachInstr(f, func(in ssa.Instruction) {
 		r, ok := in.(*ssa.Return)
 		if !ok {
 			return
 		}
-		b, ok := strip(r.Results[0]).(*ssa.BinOp)
-		if !ok || b.Op != token.EQL {
-			return
+		v := strip(r.Results[0])
+		if b, isC := constBool(v); isC && !b {
+			return // a "no" answer
 		}
 		n++
-		isGlobMsg := func(v ssa.Value) bool {
-			base, fld, ok := fieldOf(v)
-			if !ok || fld != "message" {
-				return false
-			}
-			u, ok := base.(*ssa.UnOp)
-			if !ok {
-				return false
-			}
-			g, ok := u.X.(*ssa.Global)
-			return ok && g.Name() == "errStoppedAndDeleted"
+		// a "yes" (or a computed answer) is decided by equality of the whole message with the stop-and-delete error's own message
+		eqHere := factCmp([]fact{{V: v, Pol: true}}, token.EQL, isOwnMsg, isGlobMsg)
+		eqBefore := factCmp(factsAt(r.Block()), token.EQL, isOwnMsg, isGlobMsg)
+		isTrue := false
+		if b, isC := constBool(v); isC && b {
+			isTrue = true
 		}
-		good := (isFieldLoad("message")(b.X) && isGlobMsg(b.Y)) || (isFieldLoad("message")(b.Y) && isGlobMsg(b.X))
-		c.check(good, "isStopAndDelete/message", c.ipos(r), "the peer's message is compared with the stop-and-delete error's own message", "stop-and-delete detection compares with something other than the error the stopping side sends")
+		good := eqHere || (isTrue && eqBefore)
+		c.check(good, "isStopAndDelete/message", c.ipos(r), "the peer's message is compared, as a whole, with the stop-and-delete error's own message", "stop-and-delete is not decided by equality with the message the stopping side sends (a prefix / substring test, or another stop error, also matches a plain stop: the server deletes files it must keep)")
 		c.check(factCmp(factsAt(r.Block()), token.EQL, isFieldLoad("errType"), isConstStrV("fail")), "isStopAndDelete/type", c.ipos(r), "only a peer 'fail' line can request deletion", "stop-and-delete accepted for other line types")
 	})
-	if n != 1 {
-		c.undecided("isStopAndDelete/compare", "expected one message comparison")
+	if n == 0 {
+		c.bad("isStopAndDelete/message", c.pos(f.Pos()), "isStopAndDelete never answers yes: stop-and-delete cannot reach the server")
 	}
 	// checkStop hands out exactly that error for the delete flavour
 	g := c.fn("trzszTransfer.checkStop")
